@@ -537,3 +537,115 @@ def _phi_site(body, val):
             except Exception:
                 pass
     return None
+
+
+# ------------------------------------------------------------------ canonical signatures
+def sig(e, params_positional=True):
+    """canonical one-line rendering for provenance tables: parameters positional ($1..), variables by name
+    without versions, callees by their last two path segments, newtype wrapping/`.0` kept."""
+    if not isinstance(e, tuple):
+        return repr(e)
+    k = e[0]
+    if k == "param":
+        return "$%d" % e[1] if params_positional else e[2]
+    if k == "var":
+        return e[1]
+    if k == "upvar":
+        return "^" + e[1].replace("_ref__", "")
+    if k == "const":
+        if len(e) > 3:
+            return e[3].split("::")[-1]
+        return str(e[2])
+    if k == "cdef":
+        return e[1].split("::")[-1]
+    if k == "fn":
+        return "fn:" + mir.short(e[1])
+    if k == "field":
+        return "%s.%s" % (sig(e[1]), e[2])
+    if k == "vfield":
+        return "(%s as %s).%s" % (sig(e[1]), e[2], e[3])
+    if k == "call":
+        return "%s(%s)" % (mir.short(e[1]), ", ".join(sig(a) for a in e[2]))
+    if k == "bin":
+        return "%s(%s, %s)" % (e[1], sig(e[2]), sig(e[3]))
+    if k == "un":
+        return "%s(%s)" % (e[1], sig(e[2]))
+    if k == "cast":
+        return "(%s as %s)" % (sig(e[1]), e[3])
+    if k == "agg":
+        return "%s::%s{%s}" % (e[1].split("::")[-1], e[2], ", ".join("%s: %s" % (n, sig(v)) for n, v in e[3]))
+    if k == "closure":
+        return "closure[%s]" % ", ".join("%s=%s" % (n.replace("_ref__", ""), sig(v)) for n, v in e[2])
+    if k in ("tuple", "array"):
+        return "%s(%s)" % (k, ", ".join(sig(x) for x in e[1]))
+    if k == "phi":
+        return "phi(%s)" % " | ".join(sorted(sig(x) for x in e[1]))
+    if k in ("try", "elem", "next", "branch", "discr", "mutated"):
+        return "%s(%s)" % (k, sig(e[1]))
+    if k == "index":
+        return "%s[%s]" % (sig(e[1]), sig(e[2]))
+    if k == "unknown":
+        return "?"
+    return mir.show(e)
+
+
+def check_table(r, prefix, actual, expected, where, what="source", prog=None):
+    """compare a dict field->expr against field->(set of accepted signatures | predicate).  A fully recovered
+    expression that is not accepted is a violation; one containing unknown parts is undecided."""
+    for fld, exp in expected.items():
+        if fld not in actual:
+            r.violation("%s/%s/missing" % (prefix, fld), "%s for `%s` is missing" % (what, fld), where)
+            continue
+        e = actual[fld]
+        s_ = sig(e)
+        if callable(exp):
+            ok = exp(e)
+            exp_txt = getattr(exp, "__doc__", None) or "predicate"
+        else:
+            acc = exp if isinstance(exp, (set, list, tuple)) else [exp]
+            ok = s_ in acc
+            if not ok and prog is not None:
+                for dpt in (1, 2, 3):
+                    e2 = inline(prog, e, dpt)
+                    if sig(e2) in acc:
+                        ok = True
+                        s_ = sig(e2) + " (after inlining helpers)"
+                        break
+            exp_txt = " | ".join(acc)
+        if ok:
+            r.ok("%s/%s" % (prefix, fld), "%s = %s" % (fld, s_), where)
+        elif has_unknown(e):
+            r.undecided("%s/%s" % (prefix, fld), "%s = %s (not fully recovered)" % (fld, s_), where)
+        else:
+            r.violation("%s/%s" % (prefix, fld), "%s = %s, expected %s" % (fld, s_, exp_txt), where)
+
+
+# ------------------------------------------------------------------ inlining of simple local helpers
+def subst(e, pmap, upmap=None):
+    if not isinstance(e, tuple):
+        return e
+    if e and e[0] == "param" and e[1] in pmap:
+        return pmap[e[1]]
+    if e and e[0] == "upvar" and upmap and e[1] in upmap:
+        return upmap[e[1]]
+    return tuple(subst(x, pmap, upmap) if isinstance(x, tuple) else x for x in e)
+
+
+def inline(prog, e, depth=3, only_crates=("melstf", "melvm", "tip911_stakeset")):
+    """replace calls to local single-expression functions by their (substituted) result expression"""
+    if not isinstance(e, tuple) or depth <= 0:
+        return e
+    e = tuple(inline(prog, x, depth, only_crates) if isinstance(x, tuple) else x for x in e)
+    if e and e[0] == "call":
+        cands = prog.by_nname.get(e[1])
+        if cands and len(cands) == 1 and cands[0].crate in only_crates and cands[0].kind in ("Fn", "AssocFn"):
+            b = cands[0]
+            rets = ret_assignments(b)
+            if len(rets) == 1 and not has_unknown(rets[0][2]) and not contains(rets[0][2], lambda x: x[0] == "var"):
+                pmap = {i + 1: a for i, a in enumerate(e[2])}
+                return inline(prog, subst(rets[0][2], pmap), depth - 1, only_crates)
+    return e
+
+
+def local_calls(prog, e):
+    return [x[1] for x in walk(e) if x[0] == "call" and x[1] in prog.by_nname]
